@@ -285,13 +285,16 @@ impl<'a> Walk<'a> {
                 Ok(ref s) if s == want => {}
                 got => {
                     // is it another bookmark's title? then the order / parent is wrong, not the encoding
-                    if let Ok(s) = &got {
-                        if let Some(o) = (0..self.m.n).find(|&o| &self.case.titles[o] == s) {
+                    let raw = String::from_utf8(tb.clone()).ok();
+                    for reading in [got.as_ref().ok(), raw.as_ref()].into_iter().flatten() {
+                        if reading == want { continue; }
+                        if let Some(o) = (0..self.m.n).find(|&o| &self.case.titles[o] == reading) {
                             return fail("sibling-order", format!("child {} of {:?} should be bookmark #{} {:?} but is bookmark #{} {:?}", i, parent, b + 1, self.esc(b), o + 1, self.esc(o)));
                         }
                     }
-                    let raw_ok = String::from_utf8(tb.clone()).map(|s| &s == want).unwrap_or(false);
-                    let detail = format!("item {:?}: /Title bytes {} read as a PDF text string give {:?}, the bookmark title is {:?}", cur, hex(&tb), got.map(|s| s.escape_debug().to_string()), self.esc(b));
+                    let raw_ok = raw.as_ref() == Some(want);
+                    let own = lopdf::decode_text_string(&Object::String(tb.clone(), lopdf::StringFormat::Literal)).map(|s| s.escape_debug().to_string()).map_err(|e| e.to_string());
+                    let detail = format!("item {:?}: /Title bytes {} read as a PDF text string give {:?} (lopdf::decode_text_string: {:?}), the bookmark title is {:?}", cur, hex(&tb), got.map(|s| s.escape_debug().to_string()), own, self.esc(b));
                     if raw_ok { self.soft.push(("item-title-pdfdocencoding".to_string(), detail)); } else { return fail("item-title", detail); }
                 }
             }
@@ -554,8 +557,8 @@ fn family_shapes(thorough: bool) -> Vec<Skel> {
     for n in 0..=max_n {
         for parents in parent_seqs(n, false) {
             for pages in 1..=3u8 {
-                if !thorough && n == 5 && pages == 3 { continue; }
-                let all_layouts = n <= 4 || (thorough && n == 5);
+                if n == max_n && n >= 5 && pages == 3 { continue; }
+                let all_layouts = n <= 4 || thorough;
                 for targets in target_assignments(&parents, pages) {
                     let layouts: Vec<u8> = if all_layouts { (0..N_LAYOUTS).collect() } else { vec![(idx % N_LAYOUTS as u32) as u8] };
                     for &layout in &layouts {
@@ -745,7 +748,7 @@ const BOUND_COMMON: &str = "B: every ordered tuple of distinct titles from a 23-
 
 pub fn run(thorough: bool) -> Report {
     let bound = if thorough {
-        format!("A: every sequence of n<=6 add_bookmark calls (call k attaches to the top level or to any of the k-1 earlier bookmarks: n! sequences = every ordered forest in every attachment order) x documents of 1..3 pages x every target assignment (each bookmark: any page, or the zero page if it has a child) x 4 document layouts (n=6: one layout per case in rotation), titles rotated through the alphabet of B; C: every Unicode scalar value c (1,112,064) as the titles \"c\" and \"[c]\", 64 values per document of 128 bookmarks (depth 3, zero-page parents); {}", BOUND_COMMON)
+        format!("A: every sequence of n<=6 add_bookmark calls (call k attaches to the top level or to any of the k-1 earlier bookmarks: n! sequences = every ordered forest in every attachment order) x documents of 1..3 pages (n=6: 1..2) x every target assignment (each bookmark: any page, or the zero page if it has a child) x 4 document layouts, titles rotated through the alphabet of B; C: every Unicode scalar value c (1,112,064) as the titles \"c\" and \"[c]\", 64 values per document of 128 bookmarks (depth 3, zero-page parents); {}", BOUND_COMMON)
     } else {
         format!("A: every sequence of n<=5 add_bookmark calls (call k attaches to the top level or to any of the k-1 earlier bookmarks: n! sequences = every ordered forest in every attachment order) x documents of 1..3 pages (n=5: 1..2) x every target assignment (each bookmark: any page, or the zero page if it has a child) x 4 document layouts (n=5: one layout per case in rotation), titles rotated through the alphabet of B; C: every BMP scalar value c (63,488) as the titles \"c\" and \"[c]\", 64 values per document of 128 bookmarks (depth 3, zero-page parents), and every astral scalar value (1,048,576) inside a title of 4 consecutive values, 512 values per document; {}", BOUND_COMMON)
     };
